@@ -186,3 +186,67 @@ Qed.
 (* replay: the result is a function of the tape *)
 Theorem replay_deterministic {A} (op : tape -> option (A * tape)) t1 t2 : t1 = t2 -> op t1 = op t2.
 Proof. intros ->. reflexivity. Qed.
+
+(* ---- ShuffleSequences only re-orders the rows, whatever the tape --------------------------------------- *)
+From Coq Require Import Permutation.
+From GA.Proofs Require ContainerProofs.
+
+Lemma nth_set_nth {A} (l : list A) (k : nat) (x d : A) (m : nat) :
+  nth m (set_nth k x l) d = if Nat.eqb m k then (if Nat.ltb k (length l) then x else nth m l d) else nth m l d.
+Proof.
+  revert k m; induction l as [|h t IH]; intros k m.
+  - destruct k, m; cbn; try reflexivity; destruct (Nat.eqb m k); reflexivity.
+  - destruct k as [|k]; destruct m as [|m]; cbn [set_nth nth Nat.eqb length]; try reflexivity.
+    rewrite IH. destruct (Nat.eqb m k); [|reflexivity].
+    destruct (Nat.ltb_spec k (length t)), (Nat.ltb_spec (S k) (S (length t))); try reflexivity; lia.
+Qed.
+
+Lemma set_nth_length {A} (l : list A) k x : length (set_nth k x l) = length l.
+Proof. revert k; induction l as [|h t IH]; intros k; [destruct k; reflexivity|]. destruct k; cbn; [reflexivity | rewrite IH; reflexivity]. Qed.
+
+Lemma swap_rows_perm (rs : rows) (i j : Z) :
+  0 <= i < Z.of_nat (length rs) -> 0 <= j < Z.of_nat (length rs) -> Permutation (swap_rows rs i j) rs.
+Proof.
+  intros Hi Hj. unfold swap_rows.
+  set (d := (@nil byte, @nil byte)). set (a := nth (Z.to_nat i) rs d). set (b := nth (Z.to_nat j) rs d).
+  set (ni := Z.to_nat i). set (nj := Z.to_nat j).
+  assert (Hni : (ni < length rs)%nat) by (unfold ni; lia). assert (Hnj : (nj < length rs)%nat) by (unfold nj; lia).
+  rewrite (ContainerProofs.list_as_nth (set_nth nj a (set_nth ni b rs)) d).
+  rewrite !set_nth_length.
+  rewrite (map_ext_in _ (fun k => nth (ContainerProofs.transp ni nj k) rs d)).
+  - apply perm_trans with (map (fun k => nth k rs d) (seq 0 (length rs)));
+      [| rewrite <- ContainerProofs.list_as_nth; apply Permutation_refl].
+    rewrite <- (map_map (ContainerProofs.transp ni nj) (fun k => nth k rs d)).
+    apply Permutation_map. apply ContainerProofs.transp_perm; assumption.
+  - intros k Hk. apply in_seq in Hk. rewrite !nth_set_nth, set_nth_length.
+    unfold ContainerProofs.transp.
+    destruct (Nat.ltb_spec nj (length rs)); [|lia]. destruct (Nat.ltb_spec ni (length rs)); [|lia].
+    destruct (Nat.eqb_spec k nj) as [->|Hkj].
+    + (* position j receives the old row i *)
+      destruct (Nat.eqb_spec nj ni) as [E|E]; [rewrite E; reflexivity | reflexivity].
+    + destruct (Nat.eqb_spec k ni) as [->|Hki]; reflexivity.
+Qed.
+
+Lemma fy_loop_rows_perm fuel : forall n (rs : rows) t out r,
+  tape_ok t -> n <= Z.of_nat (length rs) ->
+  fy_loop fuel n swap_rows rs t = Some (out, r) -> Permutation out rs.
+Proof.
+  induction fuel as [|f IH]; intros n rs t out r Ht Hn H; cbn [fy_loop] in H.
+  - unfold ret in H. injection H as <- _. apply Permutation_refl.
+  - destruct (Z.leb_spec n 1) as [Hle|Hgt].
+    + unfold ret in H. injection H as <- _. apply Permutation_refl.
+    + unfold bind in H. destruct (intn n t) as [[v t1]|] eqn:E; [|discriminate].
+      pose proof (intn_range n t v t1 ltac:(lia) Ht E) as Hv.
+      pose proof (intn_tail n t v t1 Ht E) as Ht1.
+      assert (Hp : Permutation (swap_rows rs (n - 1) v) rs) by (apply swap_rows_perm; lia).
+      eapply perm_trans; [|exact Hp].
+      apply (IH (n - 1) (swap_rows rs (n - 1) v) t1 out r Ht1); [|exact H].
+      rewrite (Permutation_length Hp). lia.
+Qed.
+
+Theorem shuffle_is_row_permutation rs t out r :
+  tape_ok t -> shuffle_sequences rs t = Some (out, r) -> Permutation out rs.
+Proof.
+  intros Ht H. unfold shuffle_sequences in H.
+  eapply fy_loop_rows_perm; [exact Ht | | exact H]. unfold nrows. lia.
+Qed.
